@@ -336,9 +336,9 @@ type verdict struct {
 	// UnmarshalCompressed) under either prefix, and documents MarshalCompressed
 	// of infinity as undefined - so no re-encoding is demanded for it.
 	compInf bool
-	p1     apt[*big.Int]
-	p2     apt[fp2]
-	gt     fp12
+	p1      apt[*big.Int]
+	p2      apt[fp2]
+	gt      fp12
 }
 
 func decide(c decCase, enc []byte) verdict {
